@@ -437,3 +437,21 @@ M('c14-am-sync-border-lookahead-one-short', 'C14', 'R10', S, "next_chunk[:delimi
 # `total = total + len(line)`; `if not have_bytes:` / `have_bytes <= 0` / always joining the backlog; `offset + delimiter_pos`, by keyword; the enough-test
 # through a local `avail`; border guard `if delimiter_len_1:` / `len(delimiter) > 1` / `if True`; every `x op= y` rewritten as `x = x op y`.
 # `return bytes(self._buffer[...])` in peek is an unknown idiom (exit 2)
+
+# ---------------------------------------------------- R19 the one-shot iteration guard belongs to __aiter__ alone (seeded change s9-c14-1)
+M('c14-asgi-pipe-iterates-self', 'C14', 'R19', A,
+  "        async for chunk in self._iter_with_buffer():\n            if destination is not None:",
+  "        async for chunk in self:\n            if destination is not None:")
+M('c14-asgi-exhaust-iterates-self', 'C14', 'R19', A, "        await self.pipe()\n", "        async for _chunk in self:\n            pass\n")
+M('c14-asgi-readall-reads-from-self', 'C14', 'R19', A, "        return await self._read_from(self._iter_with_buffer())\n", "        return await self._read_from(self)\n")
+M('c14-asgi-pipe-through-dunder-aiter', 'C14', 'R19', A,
+  "        async for chunk in self._iter_with_buffer():\n            if destination is not None:",
+  "        async for chunk in self.__aiter__():\n            if destination is not None:")
+M('c14-asgi-pipe-refuses-after-iteration', 'C14', 'R19', A,
+  "        async for chunk in self._iter_with_buffer():\n            if destination is not None:",
+  "        if self._iteration_started:\n            raise OperationNotAllowed('This stream is already being iterated over.')\n"
+  "        async for chunk in self._iter_with_buffer():\n            if destination is not None:")
+M('c14-asgi-pipe-marks-iteration-started', 'C14', 'R19', A,
+  "        async for chunk in self._iter_with_buffer():\n            if destination is not None:",
+  "        self._iteration_started = True\n        async for chunk in self._iter_with_buffer():\n            if destination is not None:")
+# negative controls verified by hand with --root (silent): see fixer report (wave 9)
